@@ -4,6 +4,7 @@ import (
 	"bytes"
 	"encoding"
 	"fmt"
+	"reflect"
 	"unicode"
 	"unicode/utf16"
 	"unicode/utf8"
@@ -41,6 +42,18 @@ var (
 	nullbytes = []byte(`null`)
 )
 
+// setNull stores JSON null like encoding/json does: a value whose kind is
+// interface, pointer, map or slice becomes its zero value, anything else is
+// left as it is. (The value at p has type d.typ.Elem(); storing a nil pointer
+// word there regardless of its size overwrote what follows a smaller value.)
+func (d *unmarshalTextDecoder) setNull(p unsafe.Pointer) {
+	elem := d.typ.Elem()
+	switch elem.Kind() {
+	case reflect.Interface, reflect.Ptr, reflect.Map, reflect.Slice:
+		typedmemmove(elem, p, unsafe_New(elem))
+	}
+}
+
 func (d *unmarshalTextDecoder) DecodeStream(s *Stream, depth int64, p unsafe.Pointer) error {
 	s.skipWhiteSpace()
 	start := s.cursor
@@ -70,7 +83,7 @@ func (d *unmarshalTextDecoder) DecodeStream(s *Stream, depth int64, p unsafe.Poi
 			}
 		case 'n':
 			if bytes.Equal(src, nullbytes) {
-				*(*unsafe.Pointer)(p) = nil
+				d.setNull(p)
 				return nil
 			}
 		}
@@ -123,7 +136,7 @@ func (d *unmarshalTextDecoder) Decode(ctx *RuntimeContext, cursor, depth int64, 
 			}
 		case 'n':
 			if bytes.Equal(src, nullbytes) {
-				*(*unsafe.Pointer)(p) = nil
+				d.setNull(p)
 				return end, nil
 			}
 		}
